@@ -59,11 +59,22 @@ def record_one(job):
     }
 
 
+def _limit_memory():
+    """a library call that tries to allocate absurd amounts (a view over the 2^64 indexes between two saturated sparse
+    bins) must fail with MemoryError inside the recorder - an observable outcome - not take the machine down"""
+    import resource
+
+    lim = 6 << 30
+    soft, hard = resource.getrlimit(resource.RLIMIT_AS)
+    if hard == resource.RLIM_INFINITY or hard > lim:
+        resource.setrlimit(resource.RLIMIT_AS, (lim, hard))
+
+
 def record_all(jobs, nproc=14):
     if nproc <= 1 or len(jobs) < 8:
-        return [record_one(j) for j in jobs]
+        nproc = 1
     chunk = max(1, len(jobs) // (nproc * 4))
-    with ProcessPoolExecutor(max_workers=nproc) as ex:
+    with ProcessPoolExecutor(max_workers=nproc, initializer=_limit_memory) as ex:
         return list(ex.map(record_one, jobs, chunksize=chunk))
 
 
